@@ -83,6 +83,55 @@ CLAIMED.update({
     },
 })
 
+CLAIMED.update({
+    "C02": {
+        "text": "Machine-checked proof that for every spec-valid tree of ordinary, pruned-branch (all masks 1..7), library, "
+                "Merkle-proof and Merkle-update cells the model of Cell.__init__ succeeds and its level mask and the hash "
+                "and depth at each level 0..3 equal the level-wise specification of Spec/CellRepr.v; and that replacing a "
+                "level-0 subtree below j <= 2 Merkle cells by the pruned branch carrying its hash/depth leaves the "
+                "level-0 hash and depth of the enclosing tree unchanged. Differential run over all masks/types/nestings, "
+                "BoC round trip and pruning on the implementation.",
+        "design_ref": "DESIGN.md 4.2",
+        "technique": "Coq proof: nested-cell induction with a per-level loop invariant (finite mask/level selection by "
+                     "vm_compute), context induction for pruning invariance; correspondence by extracted OCaml model",
+        "note": "4 theorems closed under the global context. Pruned subtrees deeper than 65535 are excluded by an explicit "
+                "hypothesis (the stored depth has 16 bits).",
+    },
+    "C12": {
+        "text": "Machine-checked proof, for ANY hash function and ANY signature-verification predicate, that the model of "
+                "check_block_signatures accepts exactly the signature sets of distinct, known, correctly signing validators "
+                "whose combined weight is strictly more than 2/3 of the total (iff against a declarative predicate), with "
+                "the named rejection corollaries. Differential run with real Ed25519 keys at the 2/3 boundary.",
+        "design_ref": "DESIGN.md 4.12",
+        "technique": "Coq proof (loop characterisation by induction on the signature list, generalised over the seen-set and "
+                     "accumulated weight); correspondence by extracted OCaml model fed with real verify_sign outcomes",
+        "note": "5 theorems closed under the global context; no assumption about SHA-256 or Ed25519.",
+    },
+    "C13": {
+        "text": "Machine-checked proof that every friendly variant and the raw form of every address (wc -128..127 / any "
+                "integer, 32-byte id) parses back to the same address and flags, equal addresses hash equally, and that "
+                "every one of the 48x63 single-character substitutions of a friendly address is rejected, for every "
+                "address and variant (CRC-16 linearity + 3024-pattern sweep). Differential run incl. 12k substitutions.",
+        "design_ref": "DESIGN.md 4.13",
+        "technique": "Coq proof (base64 regrouping arithmetic, decimal/hex print-parse inverses, GF(2)-linearity of CRC-16 and "
+                     "of base64 decoding, finite error-pattern sweep by vm_compute); correspondence by extracted OCaml model",
+        "note": "5 theorems closed under the global context. CPython base64/int()/hex are modelled (Model/Address.v) on the "
+                "stated input domain.",
+    },
+    "C20": {
+        "text": "PARTIAL by nature. Machine-checked proof over abstract primitives that two mirrored AdnlChannel models "
+                "decrypt each other's packets for all three byte orders of the ids, that the packet carries H(plaintext) "
+                "and the key id the peer expects, that the signing glue verifies, that generated 24-word mnemonics are "
+                "valid; hypotheses = named laws of X25519/AES-CTR/Ed25519. Differential run of key/iv/id observables and "
+                "end-to-end checks with the real libraries. Unforgeability is not assumed and not claimed.",
+        "design_ref": "DESIGN.md 4.20",
+        "technique": "Coq proof over Section parameters (case split on the lexicographic comparison, list algebra); "
+                     "correspondence of derived keys/ivs/ids by extracted OCaml model",
+        "note": "5 theorems closed under the global context; DH commutativity, CTR involution, 32-byte hash length and "
+                "sign-then-verify are hypotheses of the theorems, sampled on real primitives.",
+    },
+})
+
 PENDING_REASON = "check not built yet in this round (design in DESIGN.md section 4); not claimed until it exists"
 
 
